@@ -57,6 +57,8 @@ pub struct BfsCfg {
     pub max_secs: u64,
     /// when false, no de-duplication (used by the canonical-form self check)
     pub dedup: bool,
+    /// keep the shortest history of every state (BfsStats::histories), for conformance replays
+    pub collect: bool,
 }
 
 impl Default for BfsCfg {
@@ -67,6 +69,7 @@ impl Default for BfsCfg {
             max_states: 5_000_000,
             max_secs: 3600,
             dedup: true,
+            collect: false,
         }
     }
 }
@@ -162,6 +165,7 @@ pub struct BfsStats {
     pub max_depth: u64,
     pub fixpoint: bool,
     pub observations: u64,
+    pub histories: Vec<Vec<u16>>,
 }
 
 pub fn bfs<M: Model>(m: &M, cfg: &BfsCfg, rep: &mut Report) -> BfsStats {
@@ -175,6 +179,7 @@ pub fn bfs<M: Model>(m: &M, cfg: &BfsCfg, rep: &mut Report) -> BfsStats {
         observations.insert(m.observe(&sys));
     }
     let mut frontier: Vec<Vec<u16>> = vec![vec![]];
+    let mut histories: Vec<Vec<u16>> = if cfg.collect { vec![vec![]] } else { vec![] };
     let mut transitions: u64 = 0;
     let mut states: u64 = 1;
     let mut depth = 0usize;
@@ -264,6 +269,9 @@ pub fn bfs<M: Model>(m: &M, cfg: &BfsCfg, rep: &mut Report) -> BfsStats {
                     let hh = h.clone();
                     rep.sample(states, || render(m, &hh));
                 }
+                if cfg.collect {
+                    histories.push(h.clone());
+                }
                 next.push(h);
             }
         }
@@ -309,5 +317,6 @@ pub fn bfs<M: Model>(m: &M, cfg: &BfsCfg, rep: &mut Report) -> BfsStats {
         max_depth: depth as u64,
         fixpoint,
         observations: observations.len() as u64,
+        histories,
     }
 }
